@@ -82,7 +82,7 @@ class Report:
         if len(self.violations) < 200:
             self.violations.append({"signature": signature, "detail": detail, "replay": path})
         else:
-            self.violations.append({"signature": signature})
+            self.violations.append({"signature": signature, "replay": path, "detail": detail if first_of_kind else None})
 
     def add_drift(self, text):
         if len(self.drift) < 50:
